@@ -89,7 +89,7 @@ def s_case(gran):
 
 
 def interpret(case, ctx):
-    sim = S.Sim(tape=case["tape"], granularity=case["gran"], max_steps=400000)
+    sim = S.Sim(tape=case["tape"], granularity=case["gran"], max_steps=80000)
     try:
         with sim:
             _run(case, ctx, sim)
